@@ -602,11 +602,21 @@ impl Text {
         let texts: Vec<String> = inputs.iter().map(|x| x.1.clone()).collect();
         // 8 runs in this process, each on a fresh thread (fresh SipHash keys for every HashMap)
         let mut runs: Vec<Vec<u64>> = vec![];
-        for _ in 0..8 {
+        for run in 0..8 {
             let t = texts.clone();
             let h = std::thread::Builder::new().stack_size(64 << 20).spawn(move || {
                 let sig = hash_order_signature();
-                let d: Vec<u64> = t.iter().map(|s| digest_of(&kside::generate(s, u64::MAX).0)).collect();
+                // odd runs go through the batch backwards, and one run calls every input twice in a row:
+                // a result that depends on what was generated before (a cache, a counter, leftover
+                // state) shows up as a difference between runs
+                let order: Vec<usize> = if run % 2 == 1 { (0..t.len()).rev().collect() } else { (0..t.len()).collect() };
+                let mut d = vec![0u64; t.len()];
+                for i in order {
+                    if run == 2 {
+                        let _ = kside::generate(&t[i], u64::MAX);
+                    }
+                    d[i] = digest_of(&kside::generate(&t[i], u64::MAX).0);
+                }
                 (sig, d)
             });
             match h.map(|h| h.join()) {
@@ -854,7 +864,7 @@ impl Engine for Text {
         match prop {
             "C12" => "inputs: generated grammars whose struct / enum / terminal declarations carry 0-4 outer attributes each; attribute texts are random over an alphabet of everything but LF (nested brackets of the three kinds, //, #, $, quotes, TAB, CR, U+00A0, U+2028, U+FEFF, 2/3/4-byte characters at any offset incl. directly before the closing bracket, empty #[]), each with a unique marker, followed in the source by nothing / spaces / comments / newlines. One evaluation = one declaration: the lines immediately above `pub struct|enum <Name>` in the emitted text must be byte-for-byte the declaration's attributes in order, no attribute line may precede them, and every marked attribute must occur exactly once in the whole emitted text. Distinct non-trivial = distinct attribute texts longer than 4 bytes.".into(),
             "C13" => "inputs: generated grammars whose terminals have random payload types from the Kiki type grammar (unit, paths of 1-6 segments, generics nested to depth 8 with 1-4 arguments, unit as argument) written with random whitespace / comments between their tokens. One evaluation = one emitted module: at every use site (terminal enum variant, every struct / variant field of that terminal, node enum variant, try_into_* return type) the emitted type, re-tokenised, must equal the declared token sequence. Distinct non-trivial = distinct type expressions.".into(),
-            "C14" => "inputs: sources of every class (accepted grammars incl. the repository examples, conflicting grammars, every validation error, parse errors, lexical errors). One evaluation = one call of generate; every input is run 8 times in one process on 8 fresh threads (fresh SipHash keys per HashMap) and once in each of 2 further processes; the bytes of Ok results / the {:?} of errors (positions and attached automaton included) must be identical. A canary HashSet iterated in every run records how many distinct hash orders were actually sampled. Distinct non-trivial = distinct inputs that reach the automaton construction (Ok or TableConflict).".into(),
+            "C14" => "inputs: sources of every class (accepted grammars incl. the repository examples, conflicting grammars, every validation error, parse errors, lexical errors). One evaluation = one call of generate; every input is run 8 times in one process on 8 fresh threads (fresh SipHash keys per HashMap; odd runs go through the batch of 16 inputs backwards and one run calls every input twice in a row, so a dependence on earlier calls is visible) and once in each of 2 further processes; the bytes of Ok results / the {:?} of errors (positions and attached automaton included) must be identical. A canary HashSet iterated in every run records how many distinct hash orders were actually sampled. Distinct non-trivial = distinct inputs that reach the automaton construction (Ok or TableConflict).".into(),
             "C15" => "inputs: (a) accepted sources with / without trailing newline, CRLF, non-ASCII, leading comment up to 60 KB: the emitted text must start with a // block containing `// @sha256 ` + the SHA-256 of the source computed by an independent implementation, get_grammar_hash must return exactly that digest, and the build-script freshness test (stored digest == digest of current file) must accept the same text and reject a text differing in one byte; (b) header-like texts assembled from fragments (//, `// @sha256 `, repeated prefixes, CR, CRLF, blank and non-comment lines, Unicode): get_grammar_hash vs the rule in the property statement. One evaluation = one text. Distinct non-trivial = distinct texts.".into(),
             _ => "inputs: sources of every class (accepted, conflicting, every validation error, parse errors, lexical errors - there only the text before the offending lexeme is re-laid-out), each re-joined up to 6 times from the reference lexer's tokens with random separators: nothing where legal, any Unicode whitespace, LF / CRLF, // comments with arbitrary content, comment at the end without newline, everything on one line; validity of the re-layout (same kinds and texts) is re-checked with the reference lexer. One evaluation = one (source, re-layout) pair: Ok outputs must be identical outside the `// @sha256` line, errors identical after mapping every byte position through the token-start map. Distinct non-trivial = distinct sources with at least one re-layout.".into(),
         }
